@@ -101,6 +101,9 @@ def generate(tp: Tape, tier: str):
                 allowed_mem=200_000_000, compressor=None, py_seed=tp.randint(0, 10**6),
                 sched_seed=tp.randint(0, 2**62), exec=dict(kind="single"))
     if not raw:
+        for a in case["actions"]:
+            if a["kind"] == "store":
+                a["ids"] = a["ids"][:1]
         avoid_known(case)
     return case
 
@@ -167,6 +170,7 @@ def execute(case, sched=None):
     with PR.Session(case, sched) as rr:
         sim, store, src = rr.sim, rr.store, rr.src_store
         in_mem = []
+        values = []
         st = H.ExecState()
 
         def src_clean():
@@ -181,16 +185,41 @@ def execute(case, sched=None):
                     tstore.sh.tracing = False
                     got = zarr.open_array(store=tstore, path=tpath, mode="r")[...]
                 except Exception as e:  # noqa: BLE001
-                    violations.append(dict(cls="earlier_target_unreadable", msg=f"after {label}: target of value {vid}: {type(e).__name__}: {str(e)[:100]}"))
+                    violations.append(dict(cls="earlier_target_unreadable", msg=f"after {label}: target of value {vid}: {type(e).__name__}: {str(e)[:100]}",
+                                           ancestor_stored_after_derivation=hazard["on"]))
                     continue
                 finally:
                     tstore.sh.tracing = True
                 d = G.compare(np.asarray(got), shadow.values[vid], exact=shadow.exact[vid], lowprec=shadow.lowprec[vid])
                 if d is not None:
-                    violations.append(dict(cls="earlier_target_changed", msg=f"after {label}: target holding value {vid}: {d}"))
+                    violations.append(dict(cls="earlier_target_changed", msg=f"after {label}: target holding value {vid}: {d}",
+                                           ancestor_stored_after_derivation=hazard["on"]))
+
+        hazard = dict(on=False)
+
+        def note_hazard(stored):
+            """Runtime fact for the known finding: a not-yet-computed array is stored although other arrays of
+            the pool were already derived from it, or several arrays sharing ancestry are stored in one call."""
+            names = [x.name for x in stored]
+            for i, x in enumerate(stored):
+                if type(x._zarray).__name__ != "LazyZarrArray":
+                    continue
+                for v in values:
+                    if v is None or v is x:
+                        continue
+                    try:
+                        if x.name in v._plan.dag and v.name != x.name:
+                            hazard["on"] = True
+                    except Exception:  # noqa: BLE001
+                        pass
+                for j, y in enumerate(stored):
+                    if i != j and (x is y or x.name == y.name or x.name in y._plan.dag):
+                        hazard["on"] = True
 
         def flag_for(vid, arr):
             """Was an ancestor of this array stored after the array had been derived?"""
+            if hazard["on"]:
+                return True
             for (p, svid, was_lazy, sname) in stored_events:
                 if p > derived_at.get(vid, -1) and svid != vid and was_lazy:
                     try:
@@ -262,6 +291,7 @@ def execute(case, sched=None):
                             tgt = zarr.create_array(store=t, shape=x.shape, dtype=x.dtype, chunks=x.chunksize, fill_value=0)
                             t.sh.tracing = True
                         was_lazy = type(x._zarray).__name__ == "LazyZarrArray"
+                        note_hazard([x])
                         ex = H.make_executor(sim, a["exec"], H.ExecState())
                         if a["lazy"]:
                             out = cubed.to_zarr(x, tgt, path=path, compute=False)
@@ -283,6 +313,7 @@ def execute(case, sched=None):
                             ts.append(t)
                         lazies = [type(values[i]._zarray).__name__ == "LazyZarrArray" for i in ids]
                         names = [values[i].name for i in ids]
+                        note_hazard([values[i] for i in ids])
                         ex = H.make_executor(sim, a["exec"], H.ExecState())
                         if a["lazy"]:
                             outs = cubed.store([values[i] for i in ids], ts, compute=False)
@@ -312,7 +343,7 @@ def execute(case, sched=None):
 
         # build step by step, running the actions scheduled after each step
         src.sh.tracing = False
-        values = G.build_inputs(prog, rr.spec, src)
+        values.extend(G.build_inputs(prog, rr.spec, src))
         src.sh.tracing = True
         for i in range(len(values)):
             derived_at[i] = 0
